@@ -19,6 +19,9 @@ RULES = [
     (r"^if-forms/elif=[123],else=0", "KF-C02-ELSEIF-chain-without-ELSE-never-exits"),
     (r"^regroup/(-A(AND|OR)B|NOTA(AND|OR)B)$", "KF-C01-prefix-operator-captures-AND-OR"),
     (r"^regroup/-A\^B$", "KF-C01-unary-minus-before-power"),
+    (r"^function/joystk_to_statement/", "KF-C04-JOYSTK-call-passes-2-of-6-arguments"),
+    (r"^kinds/ecb_joystk/", "KF-C04-JOYSTK-call-passes-2-of-6-arguments"),
+    (r"^kinds/ecb_hprint/numeric item", "KF-C14-HPRINT-numeric-item-gets-numeric-temporary"),
 ]
 src = sys.argv[1]
 d = json.load(open(src))["obligations"]
